@@ -9,6 +9,6 @@ Cd "../ocaml/gen".
 Extraction "constr.ml" softplus softplus_inv pos_init pos_unwrap pos_rejects df_rejects
   uniform_rejects uniform_init uniform_maxval rate_rejects rate_init rate_of
   mix_rejects mix_init mix_logw mix_weights min_scale_init min_scale_unwrap min_scale_rejects
-  knots knots_rejects derivs deriv_init planar_act_scale planar_wu planar_denom planar_rejects
+  knots knots_rejects derivs deriv_init planar_act_scale planar_wu planar_denom planar_denom_old planar_rejects
   norm wn_unwrap wn_init tri_unwrap tri_init tri_rejects mmulT perm_rejects.
 Cd "../../coq".
